@@ -680,6 +680,72 @@ def rule_text_fold(ctx, R="C14/text-fold"):
     ctx.check(okx, R, "xor", ic.where(0), "the paired bytes are combined as `*acc ^= *chunk` and nothing else is stored", "the innermost closure is not `*a ^= *b` on the zipped pair")
 
 
+def _named_str(prog, name):
+    """value of a named byte-string/str constant, from any operand that mentions it (the driver evaluates it where it is used)"""
+    def scan(op):
+        if isinstance(op, dict):
+            if op.get("k") == "const" and op.get("named") == name and "str" in op:
+                return op["str"]
+            for v in op.values():
+                r = scan(v)
+                if r is not None:
+                    return r
+        elif isinstance(op, list):
+            for v in op:
+                r = scan(v)
+                if r is not None:
+                    return r
+        return None
+    for b in prog.bodies:
+        for blk in b.blocks:
+            for st in blk["stmts"]:
+                r = scan(st)
+                if r is not None:
+                    return r
+            r = scan(blk.get("term"))
+            if r is not None:
+                return r
+    return None
+
+
+def rule_section_name_exact(ctx, R="C14/section-name-exact"):
+    """`as found by an independent parser`: a section is found by its NAME, not by a prefix of it.  section_header_with_name compares
+    `len(name)` bytes of .shstrtab at sh_name with `name` as a whole, so the match is exact only if the name it is given carries its
+    terminating NUL: every caller passes a byte string that ends in (exactly one, final) NUL."""
+    fn = MR + "::section_header_with_name"
+    b = ctx.body(R, fn)
+    if b is None:
+        return
+    o = Origin(b)
+    eqs = [(x, o.call_args(x)) for x, t in b.calls(lambda c: (c.short or "").split("::")[-1] in ("eq", "ne"))]
+    okc = False
+    for x, a in eqs:
+        sides = [strip(a[0]), strip(a[1])]
+        whole = [s_ for s_ in sides if s_ == ("param", 3)]
+        rd = [s_ for s_ in sides if s_ != ("param", 3)]
+        if whole and rd:
+            r = rd[0]
+            while r[0] in ("okval", "deref", "ref") or (r[0] == "call" and r[1].split("::")[-1] in ("deref", "as_ref", "as_slice", "borrow")):
+                r = strip(r[1]) if r[0] != "call" else strip(r[2][0])
+            okc = okc or (r[0] == "call" and r[1].endswith("ProcessMemory::read") and any(q[0] == "call" and q[1].split("::")[-1] == "len" and strip(q[2][0]) == ("param", 3) for q in walk(r[2][2])))
+    ctx.check(okc, R, "compare-whole-name", b.where(0), "the bytes read for len(name) are compared with the whole name", "section_header_with_name does not compare len(name) bytes read at sh_name with the whole name")
+    n = 0
+    for body in ctx.prog.bodies:
+        for x, t in body.calls(lambda c: (c.short or "").endswith("module_reader::section_header_with_name")):
+            n += 1
+            e = strip(Origin(body).call_args(x)[2])
+            while e[0] in ("ref", "deref") and len(e) > 1:
+                e = strip(e[1])
+            lit = e[1] if e[0] == "str" else (_named_str(ctx.prog, e[1]) if e[0] == "named" else None)
+            ok = lit is not None and lit.endswith("\x00") and "\x00" not in lit[:-1] and len(lit) > 1
+            if lit is None:
+                ok = e[0] == "call" and e[1].split("::")[-1] == "to_bytes_with_nul"
+            who = body.short.split("::{closure")[0].split("::")[-1]
+            ctx.check(ok, R, ("caller", who), body.where(x), "%s looks for %r, terminator included" % (who, (lit or "a C string with its NUL")[:-1] if lit else "a C string with its NUL"),
+                      "%s hands section_header_with_name a name without its terminating NUL (%s): any section whose name merely STARTS with it matches — `.note.gnu.build-id.orig` is taken for the build-id note" % (who, repr(lit) if lit is not None else show(strip(Origin(body).call_args(x)[2]))[:60]))
+    ctx.floor(R, "callers of section_header_with_name", n, 2)
+
+
 def rule_process_read_verbatim(ctx, R="C14/module-read-verbatim"):
     """every decoder above it assumes that ProcessMemory::read(offset, length) returns the bytes [offset, offset+length) of the module or
     an error: the Process arm asks the reader for exactly (start_address + offset, length) and the Slice arm takes exactly
@@ -720,6 +786,7 @@ def run(ctx):
     rule_header_context(ctx)
     rule_note_walk(ctx)
     rule_text_fold(ctx)
+    rule_section_name_exact(ctx)
     rule_dynamic_entries(ctx)
     rule_strtab_window(ctx)
     from rules import preds
